@@ -35,6 +35,19 @@ func MkValue(cls string, key string, id int) []byte {
 	}
 	recBody := func(rec int) int { return rec - 24 - len(key) }
 	switch {
+	case cls == "vh0":
+		// a value whose 16-bit value hash is 0 (the value hash of a delete request)
+		if b, ok := collideCache["vh0:"+key]; ok {
+			return b
+		}
+		for i := 0; i < 1<<24; i++ {
+			b := []byte(fmt.Sprintf("<%s#vhash-zero-%06x>", key, i))
+			if store.Getvhash(b) == 0 {
+				collideCache["vh0:"+key] = b
+				return b
+			}
+		}
+		panic("no value with vhash 0 found")
 	case cls == "hA" || cls == "hB":
 		// two distinct values per key with the same 16-bit value hash (and length)
 		a := []byte("<" + key + "#collide-A-000000>")
